@@ -39,6 +39,10 @@ type Location struct {
 	lastUpdated  string
 	updatedMutex sync.RWMutex
 
+	// enableMutex serializes RemRule and EnableRule: both work on a
+	// rule's "disabled" property in more than one step.
+	enableMutex sync.Mutex
+
 	// Provider is required when using parent locations.  Must be
 	// set when the Location is created and then left unchanged.
 	//
@@ -168,7 +172,7 @@ func NewLocation(ctx *Context, name string, state State, ctrl *Control) (*Locati
 
 	// ToDo: CacheExpires default duration.
 	// loc := Location{sync.RWMutex{}, name, false, nil, ctrl, state, ServiceStats{}, false}
-	loc := Location{sync.RWMutex{}, name, false, nil, nil, state, 0, ServiceStats{}, false, "", sync.RWMutex{}, nil}
+	loc := Location{sync.RWMutex{}, name, false, nil, nil, state, 0, ServiceStats{}, false, "", sync.RWMutex{}, sync.Mutex{}, nil}
 
 	return &loc, loc.init(ctx)
 }
@@ -295,6 +299,8 @@ func (loc *Location) EnableRule(ctx *Context, id string, enable bool) error {
 
 	timer := NewTimer(ctx, "EnableRule")
 	Inc(&loc.stats.TotalCalls, 1)
+	loc.enableMutex.Lock()
+	defer loc.enableMutex.Unlock()
 	var err error
 	var have bool
 	have, err = loc.Have(ctx, id, true)
@@ -394,6 +400,10 @@ func (loc *Location) RemRule(ctx *Context, id string) (string, error) {
 	timer := NewTimer(ctx, "RemRule")
 	Inc(&loc.stats.TotalCalls, 1)
 	Inc(&loc.stats.RemRules, 1)
+	// Keep a concurrent EnableRule from slipping in between removing
+	// the rule and removing its "disabled" property.
+	loc.enableMutex.Lock()
+	defer loc.enableMutex.Unlock()
 	_, err := loc.state.Rem(ctx, id)
 	if err == nil {
 		var have bool
